@@ -5,6 +5,7 @@ cd /verif
 export SCRATCH_DIR=/root/scratch/matrix
 ALL="C01 C02 C03 C04 C05 C06 C07 C08 C09 C10 C11 C12 C13 C14 C15 C16 C17 C18 C19 C20 C21 C22 C23 C24 C25 C26 C27 C28 C29 C30 C31 C32 C33 C34 C35"
 SEEDS="$@"; [ -z "$SEEDS" ] && SEEDS=$(ls seeded)
+[ "${1:-}" = "--table-only" ] && SEEDS=""
 # which checks to run against a seed: its own property plus the checks that exercise the same code
 related() {
   case "$1" in
@@ -38,7 +39,10 @@ import os, re, json
 rows=[]
 for sid in sorted(os.listdir('/verif/seeded')):
     d=f'/verif/seeded/{sid}'
-    if not os.path.exists(f'{d}/matrix.txt'): continue
+    if not os.path.exists(f'{d}/matrix.txt'):
+        # no matrix run for this seed: fall back to the verification run of its own check(s)
+        if not os.path.exists(f'{d}/check-output.txt'): continue
+        import shutil; shutil.copy(f'{d}/check-output.txt', f'{d}/matrix.txt')
     meta=json.load(open(f'{d}/meta.json')) if os.path.exists(f'{d}/meta.json') else {}
     txt=open(f'{d}/matrix.txt').read()
     caught=re.findall(r'^== (C\d+) exit=1', txt, re.M)
